@@ -121,6 +121,7 @@ case('Trace_Plan: one scalar changed', 'Trace_Plan', t, lambda ev: setf(ev, lamb
 t = record('solv', ['solver', '--jobs', '10', '--decodes', 1])
 case('Trace_Solver: counter i of one first-phase observation', 'Trace_Solver', t, lambda ev: setf(ev, lambda e: e.get('ev') == 'solve', lambda e: e['marks'][4].__setitem__('i', e['marks'][4]['i'] + 1)))
 case('Trace_Solver: two entries of the column permutation swapped', 'Trace_Solver', t, lambda ev: setf(ev, lambda e: e.get('ev') == 'solve', lambda e: e['marks'][6]['c'].__setitem__(slice(0, 2), [e['marks'][6]['c'][1], e['marks'][6]['c'][0]])))
+case('Trace_Solver: u one too large in one observation (Figure 6 still holds)', 'Trace_Solver', t, lambda ev: setf(ev, lambda e: e.get('ev') == 'solve', lambda e: e['marks'][5].__setitem__('u', e['marks'][5]['u'] + 1)))
 
 bad = [r for r in results if not r[4]]
 print('\n%d cases, %d as expected' % (len(results), len(results) - len(bad)))
